@@ -221,6 +221,7 @@ struct GenOpts {
     bool inexact = false;
     bool compose = true;
     int64_t max_weight = 1 << 20;
+    int multi_pm = 0;              // per-mille: several small components (triangles, squares, K4, edges, isolated vertices)
     int big_core_pm = 0;           // per-mille: core of 9..12 vertices (support vectors reach |V| entries: all-vertices strategy)
     int core_sat_pm = 0;           // per-mille: force the dense-core-plus-satellites family
     int hubs_pm = 0;               // per-mille: the 'hubs' family with its own structural weights
@@ -229,10 +230,11 @@ struct GenOpts {
     int boundary_max_n = 257;
 };
 
-inline int gen_structure(Rng &r, int max_n, EL &el, std::string &family, bool force_core = false, bool big_core = false) {
+inline int gen_structure(Rng &r, int max_n, EL &el, std::string &family, bool force_core = false, bool big_core = false, bool force_multi = false) {
     int n = 0;
     int pick = (int) r.below(100);
-    if (big_core) force_core = true;
+    if (force_multi) pick = 97;
+    if (big_core) { force_core = true; force_multi = false; }
     if (force_core && (max_n >= 7 || big_core)) pick = 96;
     int nn = (int) r.range(std::min(3, max_n), max_n);
     if (pick < 30) {
@@ -271,6 +273,19 @@ inline int gen_structure(Rng &r, int max_n, EL &el, std::string &family, bool fo
         for (int a = 0; a < core; a++) for (int b = a + 1; b < core; b++) if (!r.chance(80)) add_e(el, id[a], id[b]);
         for (int q = 0; q < sat; q++) if (r.chance(400)) add_e(el, first_sat + q, id[r.below(core)]);    // pendant, else isolated
         n = core + sat; family = "core_satellites";
+    } else if (pick < 98 && force_multi) {
+        // several small components: triangles, squares, K4, single edges, short paths, isolated vertices
+        int comps = (int) r.range(3, 6);
+        for (int c = 0; c < comps && n + 4 <= std::max(max_n, 8); c++) {
+            int kind = (int) r.below(7);
+            if (kind <= 2) { add_e(el, n, n + 1); add_e(el, n + 1, n + 2); add_e(el, n + 2, n); n += 3; }
+            else if (kind == 3) { for (int i = 0; i < 4; i++) add_e(el, n + i, n + (i + 1) % 4); n += 4; }
+            else if (kind == 4) { for (int a = 0; a < 4; a++) for (int b = a + 1; b < 4; b++) add_e(el, n + a, n + b); n += 4; }
+            else if (kind == 5) { add_e(el, n, n + 1); n += 2; }
+            else { n += 1; }
+        }
+        if (r.chance(300)) for (int c = 0; c + 4 < n; c += 3) if (r.chance(500)) add_e(el, c, c + 3);   // string some of them together by bridges
+        family = "multi";
     } else if (pick < 98) { n = fam_tree(r, nn, el); family = "tree";
     } else {
         int k = (int) r.below(3);
@@ -394,7 +409,8 @@ inline GGraph gen_graph(Rng &r, const GenOpts &o) {
         int room = std::max(0, (budget_n - n) / (parts - p));
         if (room < 1 && p > 0) break;
         bool bigc = parts == 1 && o.big_core_pm > 0 && r.chance((unsigned) o.big_core_pm);
-        int sn = gen_structure(r, std::max(1, room), sub, f, parts == 1 && o.core_sat_pm > 0 && r.chance((unsigned) o.core_sat_pm), bigc);
+        bool multi = !bigc && parts == 1 && o.multi_pm > 0 && r.chance((unsigned) o.multi_pm);
+        int sn = gen_structure(r, std::max(1, room), sub, f, !multi && parts == 1 && o.core_sat_pm > 0 && r.chance((unsigned) o.core_sat_pm), bigc, multi);
         if (bigc) big_used = true;
         for (auto &q : sub) el.emplace_back(q.first + n, q.second + n);
         n += sn;
